@@ -180,6 +180,12 @@ func (r *invRun) exec(b []invStepJ) {
 
 		switch {
 		case f.P == "" && f.Name == "AddLabels":
+			if os.Getenv("VERIF_PLAINKEYS") != "" { // control run (C09): a fresh slice per call, never touched again
+				r.idx.AddLabels(f.A, append([]byte(nil), r.km.ByModel[f.B]...), f.C...)
+
+				break
+			}
+
 			key := r.kb.Get(r.km.ByModel[f.B])
 			r.idx.AddLabels(f.A, key, f.C...)
 			r.kb.Scramble()
